@@ -645,7 +645,9 @@ class StrengthModel:
         strongContributions = np.array(strongContributions)
         strongContributions[(strongContributions < 0) | ~np.isfinite(strongContributions)] = 0
         tauowo = np.array(self.orowan(rss, Ls))
-        tauowo[~np.isfinite(tauowo)] = 0
+        #The Orowan stress is negative for particles smaller than the dislocation core (2r < ri):
+        #    like the other contributions, negative or non-finite values contribute nothing
+        tauowo[(tauowo < 0) | ~np.isfinite(tauowo)] = 0
         return weakContributions, strongContributions, tauowo, contributionsList
     
     def combineStrengthContributions(self, weakContributions, strongContributions, orowan, returnComparison = False):
